@@ -288,11 +288,21 @@ def in_context(ctx, sig):
         return [op("repeat", actions={"a": [sig, draw(g("Custom", elem=g("Int8"), body=[], fresh=True), "c")]})]
     if ctx == "cleanup_skip_after":
         return [op("cleanup", body=[op("skip")]), sig]
+    # the property's own code swallows the panic that carries a fatal signal (a deferred recover() around a callback)
+    if ctx == "recovered":
+        return [op("recover", body=[sig]), draw(g("Bool"), "b")]
+    if ctx == "action_recovered":
+        return [op("repeat", actions={"a": [draw(g("Bool"), "b"), op("recover", body=[sig])]})]
+    if ctx == "custom_recovered":
+        return [draw(g("Custom", elem=g("Int8"), body=[op("recover", body=[sig])], fresh=True), "c")]
+    if ctx == "cleanup_recovered":
+        return [op("cleanup", body=[op("recover", body=[sig])]), draw(g("Bool"), "b")]
     raise KeyError(ctx)
 
 
 CONTEXTS = ["body", "body_skip", "cleanup", "cleanup_then_skip", "custom", "custom_retry", "custom_cleanup", "custom_skip",
-            "action", "inv0", "inv_after", "goroutine", "custom_in_action", "cleanup_skip_after", "then_custom", "action_then_custom"]
+            "action", "inv0", "inv_after", "goroutine", "custom_in_action", "cleanup_skip_after", "then_custom", "action_then_custom",
+            "recovered", "action_recovered", "custom_recovered", "cleanup_recovered"]
 POSITIONS = ["first", "middle", "last", "after_skips"]
 
 
@@ -305,6 +315,8 @@ def c02(tier, seed):
             nonfatal = kind in NONFATAL
             if ctx in ("body_skip", "goroutine", "custom_skip", "then_custom", "action_then_custom") and not nonfatal:
                 continue   # a fatal signal ends the call; fatal calls from other goroutines are outside the statement
+            if ctx.endswith("recovered") and kind not in ("fatalf", "fatal", "failnow"):
+                continue   # only a signal raised through *T is a falsification once its panic is swallowed
             if tier == "quick" and pos == "after_skips" and ctx not in ("body", "cleanup", "custom"):
                 continue
             sig = sig_op(kind, extra)
@@ -651,6 +663,8 @@ def sm_action(kind, rng):
         return [op("incvar", var="f"), iff("f", "ge", j, [op(rng.choice(["fatalf", "panic", "failnow"]), site=1)]), draw(g("Bool"), "v")]
     if kind == "nonfatal":
         return [op("incvar", var="e"), draw(g("Bool"), "v"), iff("e", "ge", j, [op(rng.choice(["errorf", "fail"]), text="nf")])]
+    if kind == "fatal_recovered":   # a fatal failure whose panic the action's own code swallows: the machine must stop all the same
+        return [op("incvar", var="f"), draw(g("Bool"), "v"), iff("f", "ge", j, [op("recover", body=[op(rng.choice(["fatalf", "failnow"]), site=1)])])]
     if kind == "nonfatal_custom":   # a non-fatal failure, then a successful Custom draw in the same action
         return [op("incvar", var="e"), iff("e", "ge", j, [op(rng.choice(["errorf", "fail"]), text="nf")]), draw(g("Custom", elem=g("Int8"), body=[]), "cv")]
     raise KeyError(kind)
@@ -659,15 +673,15 @@ def sm_action(kind, rng):
 def c08(tier, seed):
     rng = random.Random(seed)
     out = []
-    kinds = ["ok", "ok2", "skipbefore", "skipafter", "alwaysskip", "alwaysskipafter", "fatal", "nonfatal", "nonfatal_custom"]
-    n = 75 if tier == "quick" else 2500
+    kinds = ["ok", "ok2", "skipbefore", "skipafter", "alwaysskip", "alwaysskipafter", "fatal", "nonfatal", "nonfatal_custom", "fatal_recovered"]
+    n = 80 if tier == "quick" else 2500
     for i in range(n):
         k = rng.randrange(1, 5)
-        if i < 9:
+        if i < 10:
             chosen = [kinds[i]]
-        elif i < 15:
+        elif i < 16:
             chosen = [["alwaysskip"], ["alwaysskip", "alwaysskip"], ["alwaysskip", "alwaysskipafter"], ["skipbefore"], ["alwaysskipafter"],
-                      ["skipbefore", "alwaysskip"]][i - 9]
+                      ["skipbefore", "alwaysskip"]][i - 10]
         else:
             chosen = [rng.choice(kinds) for _ in range(k)]
         actions = {"act%d_%s" % (j, kd): sm_action(kd, rng) for j, kd in enumerate(chosen)}
@@ -684,7 +698,7 @@ def c08(tier, seed):
             rep["inv"] = inv
         body.append(rep)
         body.append(draw(g("Bool"), "after"))
-        fl = {"checks": rng.choice([5, 30]), "seed": rng.randrange(1, 1 << 64), "steps": rng.choice([1, 5, 30]), "nofailfile": "true",
+        fl = {"checks": rng.choice([5, 30]), "seed": rng.randrange(1, 1 << 64), "steps": rng.choice([0, 1, 1, 5, 5, 30, 30, 200]), "nofailfile": "true",
               "shrinktime": rng.choice(["0s", "300ms", "30s"])}
         out.append(scenario("c08-%d-%s" % (i, "+".join(chosen)), {"body": body}, fl, tag={"actions": chosen, "inv": inv is not None}))
     # arbitrary words through the fuzz entry
@@ -760,6 +774,16 @@ def c06(tier, seed):
                 {"stashPrev": True, "flags": {"seed": str(rng.randrange(1, 1 << 64))}},
                 {"failfileRun": 1, "expect": "replay_prev", "expectRun": 1}]
         out.append(scenario("c06-explicit-%d" % i, {"body": body}, {"checks": 100}, runs=runs, name="TestExplicit", tag={"explicit": True}))
+    # an explicit -rapid.failfile that does not reproduce anything any more (now passing, other version, garbage, missing): a failure the random
+    # search then finds is a new one -- it is saved, and replayed first by the next run without flags
+    stale_kinds = {"passing": failfile_text([0] * 12), "otherversion": failfile_text([9, 9], version="v0.0.1"), "garbage": "garbage", "missing": None,
+                   "invalid": failfile_text([])}
+    for i, k in enumerate(sorted(stale_kinds) * (1 if tier == "quick" else 8)):
+        path = "elsewhere/old-%s.fail" % k
+        fs = [] if stale_kinds[k] is None else [{"path": path, "text": stale_kinds[k]}]
+        runs = [{"files": fs, "flags": {"failfile": path}}, {"expect": "replay_prev"}]
+        out.append(scenario("c06-explicit-stale-%s-%d" % (k, i), {"body": t_threshold("Int64", 1000)}, {"checks": 100, "seed": rng.randrange(1, 1 << 64)},
+                            runs=runs, name="TestExplicitStale", tag={"explicit": True, "stale": k}))
     return out
 
 
